@@ -32,7 +32,16 @@ impl Axecutor {
         let dest_reg: SupportedRegister = dest.into();
 
         let src_value = match src {
-            Operand::Memory(m) => self.internal_mem_read_128(self.mem_addr(m))?,
+            Operand::Memory(m) => {
+                let addr = self.mem_addr(m);
+                // unlike MOVUPS, XORPS requires its memory operand to be 16-byte aligned (#GP)
+                if addr % 16 != 0 {
+                    return Err(AxError::from(format!(
+                        "Misaligned memory operand {addr:#x} for Xorps_xmm_xmmm128: must be 16-byte aligned"
+                    )));
+                }
+                self.internal_mem_read_128(addr)?
+            }
             Operand::Register(r) => self.internal_reg_read_128(r)?,
             _ => fatal_error!("Invalid operand for Movups_xmm_xmmm128"),
         };
